@@ -8,7 +8,15 @@
 //!   * alloc-fail:  for every allocation request k the operation performs, a child
 //!                  process in which request k returns null; the child must either
 //!                  finish or die through handle_alloc_error.
+//!   * alloc-fail with an UNWINDING error path (nightly builds, cfg(vkit_nightly)): the same
+//!                  children with `set_alloc_error_hook` installed to panic, as std permits
+//!                  ("the hook may choose to panic or abort"): the operation is then torn down
+//!                  by unwinding, and the allocator log must show no release of the null block
+//!                  (or of any block never handed out) and no block left allocated.
 //! Large arrays (8/16 MiB) are built on a 256 KiB-stack thread in child processes.
+
+#![allow(unexpected_cfgs)]
+#![cfg_attr(vkit_nightly, feature(alloc_error_hook))]
 
 use generic_array::functional::FunctionalSequence;
 use generic_array::sequence::GenericSequence;
@@ -743,6 +751,66 @@ fn child_allocfail(args: &Args) -> ! {
     }
 }
 
+/// child entry (nightly builds): allocation request k fails and the allocation-error hook panics
+#[cfg(vkit_nightly)]
+fn child_allocfail_unwind(args: &Args) -> ! {
+    use std::sync::atomic::{AtomicBool, Ordering};
+    static HOOK_FIRED: AtomicBool = AtomicBool::new(false);
+    let opi = args.get_usize("op", 0);
+    let n = args.get_usize("n", 0);
+    let k = args.get_usize("k", 0);
+    let flav = args.kv.get("flav").cloned().unwrap_or_else(|| "u64".into());
+    let op = op_by_index(opi);
+    std::alloc::set_alloc_error_hook(|_layout| {
+        HOOK_FIRED.store(true, Ordering::SeqCst);
+        // a payload that needs no allocation
+        std::panic::panic_any("ALLOC-ERROR-HOOK")
+    });
+    let cx = Ctx { fail_at: Some(k), panic_at: None };
+    ledger::begin_case();
+    let r = std::panic::catch_unwind(std::panic::AssertUnwindSafe(|| dispatch_flavour_len!(flav.as_str(), n, |E, N| exec::<E, N>(op, cx))));
+    alloc::arm_fail(None);
+    if HOOK_FIRED.load(Ordering::SeqCst) {
+        // the operation (or the part of it that was running) was torn down by unwinding, whether
+        // the panic reached us or an inner catch of the case body: everything it held is gone, so
+        // the allocator log must be clean — no release of the null block or of a block never
+        // handed out, no block left allocated
+        drop(r);
+        let mut trace = alloc::snapshot();
+        // requests made after the injected failure belong to the panic runtime and to this
+        // harness' own panic bookkeeping (payload box, message strings), not to the operation,
+        // which only releases from here on: exempt them from the rules; releases stay judged
+        if let Some(i) = trace.recs.iter().position(|r| r.injected_fail) {
+            for r in trace.recs[i + 1..].iter_mut() {
+                if !matches!(r.op, alloc::Op::Dealloc) {
+                    r.masked = true;
+                }
+            }
+        }
+        let audit = trace.audit(true);
+        if let Some(v) = audit.violations.first() {
+            println!("CHILD-ERR {}: after the allocation-error hook unwound: {:?}; allocator log: {:?}", v.kind(), v, trace.brief());
+            std::process::exit(3)
+        }
+        println!("CHILD-UNWOUND-CLEAN requests={} releases={}", audit.allocs, audit.deallocs);
+        std::process::exit(0)
+    }
+    match r {
+        Ok(Ok(_)) => {
+            println!("CHILD-RETURNED");
+            std::process::exit(0)
+        }
+        Ok(Err(e)) => {
+            println!("CHILD-ERR {e}");
+            std::process::exit(3)
+        }
+        Err(_) => {
+            println!("CHILD-ERR OtherPanic: {}", fault::last_panic());
+            std::process::exit(3)
+        }
+    }
+}
+
 fn checksum(s: &[u64]) -> u64 {
     let mut h = 0u64;
     // sample: full traversal of 1M elements is fine natively
@@ -975,6 +1043,46 @@ fn grid<E: Elem + Clone + Default, N: ArrayLength>(st: &mut Stats, args: &Args, 
                 st.done(&desc, true);
             }
         }
+
+        // ---- the same failures with an allocation-error hook that unwinds (nightly builds only)
+        if prop == "C16" && args.part_on("allocfail_unwind") && cfg!(vkit_nightly) && !cfg!(miri) {
+            for k in 0..base.requests_in_op {
+                let Some(desc) = st.select(|| format!("C16 {} {} N={n} allocfail_unwind k={k}/{} [{}]", op.short(), E::NAME, base.requests_in_op, op.name())) else { continue };
+                let out = spawn_child(&["child=allocfail_unwind".into(), format!("op={opi}"), format!("n={n}"), format!("k={k}"), format!("flav={flav_arg}")]);
+                st.op(op.short());
+                st.count("c16.allocfail_unwind_children", 1);
+                let stderr_l = out.stderr.to_lowercase();
+                let ub_marks = ["null pointer dereference", "unsafe precondition", "misaligned pointer", "addresssanitizer", "segv"];
+                let ub = ub_marks.iter().find(|m| stderr_l.contains(*m));
+                let verdict: Result<(), String> = if let Some(m) = ub {
+                    Err(format!("TouchedNullBlock: child reported '{m}' while unwinding from the allocation-error hook after request {k} failed: {}", tail(&out.stderr)))
+                } else if out.code == Some(0) && out.stdout.contains("CHILD-UNWOUND-CLEAN") {
+                    st.count("c16.allocfail_unwound_clean", 1);
+                    Ok(())
+                } else if out.code == Some(0) && out.stdout.contains("CHILD-RETURNED") {
+                    st.count("c16.allocfail_recovered", 1);
+                    Ok(())
+                } else if stderr_l.contains("panicked while processing panic") || stderr_l.contains("panic in a function that cannot unwind") || stderr_l.contains("panic in a destructor during cleanup") {
+                    // the failed request belonged to the panic runtime itself (or a second panic met the
+                    // first): Rust aborts by rule; says nothing about the crate
+                    st.count("c16.allocfail_unwind_double_panic_abort", 1);
+                    Ok(())
+                } else if out.signal.is_some() {
+                    Err(format!("TouchedNullBlock: child died with signal {:?} while unwinding from the allocation-error hook after request {k} failed: {}", out.signal, tail(&out.stderr)))
+                } else if out.code == Some(3) {
+                    Err(format!("AfterFailure: {}", out.stdout.trim()))
+                } else {
+                    Err(format!("NonStandardFailure: child ended code={:?}: {}", out.code, tail(&out.stderr)))
+                };
+                if let Err(e) = verdict {
+                    let kind = e.split(':').next().unwrap().to_string();
+                    let kind2 = e.split(':').nth(1).map(|s| s.trim().split(' ').next().unwrap_or("").to_string()).unwrap_or_default();
+                    let kind = if kind == "AfterFailure" && !kind2.is_empty() { format!("AfterFailure.{}", kind2.trim_start_matches("CHILD-ERR")) } else { kind };
+                    st.violation("C16", &format!("{}|{}|allocfail_unwind:{kind}", op.short(), E::NAME), &desc, &e);
+                }
+                st.done(&desc, true);
+            }
+        }
     }
 }
 
@@ -1049,6 +1157,11 @@ fn main() {
             child_allocfail(&args)
         }
         Some("bigstack") => child_bigstack(&args),
+        #[cfg(vkit_nightly)]
+        Some("allocfail_unwind") => {
+            fault::install_hook();
+            child_allocfail_unwind(&args)
+        }
         _ => {}
     }
     let mut st = Stats::new("heap", &args);
